@@ -69,6 +69,10 @@ def judge19(msg, exp, dexp):
             d = abs((ang - exp[2] + 180) % 360 - 180) if ang is not None else 999
             if d > 1e-9:
                 return "velocity:track"
+            if not (0.0 <= ang <= 360.0):
+                # the statement does not fix the representative of the angle (360.0 for north is tolerated), but a
+                # value outside [0, 360] is not a compass track under any convention
+                return "velocity:track_outside_0_360"
         else:
             if spd != exp[1]:
                 return "velocity:airspeed"
